@@ -611,6 +611,9 @@ func mergeVal(c *Term, a, b Value) (Value, bool) {
 		return x, ok && x == y
 	case Blob:
 		return nil, false
+	case SigTag:
+		y, ok := b.(SigTag)
+		return x, ok && string(x.Key) == string(y.Key) && false
 	case Junk:
 		_, ok := b.(Junk)
 		return x, ok
